@@ -44,16 +44,18 @@ ASSUMPTIONS = [
     "a blank mnemonic comes with fields that contain no period",
     "float formatting/parsing of the concrete numeric values is numpy/libc code (trusted)",
 ]
-WITNESS_TARGETS = ["STRT-is-the-widest-well-entry", "symbolic-item-is-widest", "symbolic-item-is-narrowest", "version-1.2-well-order", "empty-value-with-unit-becomes-0", "blank-mnemonic", "case-mapped-mnemonic"]
+WITNESS_TARGETS = ["STRT-is-the-widest-well-entry", "symbolic-item-is-widest", "symbolic-item-is-narrowest", "version-1.2-well-order", "empty-value-with-unit-becomes-0", "blank-mnemonic", "case-mapped-mnemonic", "second-NULL-item-written-and-read-back"]
 def _dup_steer_sym(i):
+    """a second STRT/STOP/STEP, or a second NULL while the data hold a NaN (the writer then looks NULL up by name)"""
     if i["section"] != "W" or not isinstance(i["m"], (str, SymStr)):
         return False
     m = SymStr.lift(i["m"])
-    return z.Or([m.eq_expr(n) for n in ("STRT", "STOP", "STEP", "NULL")])
+    nn = i.get("no_nan", False)
+    return z.Or([m.eq_expr(n) for n in ("STRT", "STOP", "STEP")] + [z.And(m.eq_expr("NULL"), z.Not(nn.e if hasattr(nn, "e") else bool(nn)))])
 
 
 def _dup_steer_conc(i):
-    return i["section"] == "W" and i["m"] in ("STRT", "STOP", "STEP", "NULL")
+    return i["section"] == "W" and (i["m"] in ("STRT", "STOP", "STEP") or (i["m"] == "NULL" and not i.get("no_nan", False)))
 
 
 EXCLUSIONS = {"well_item_duplicating_STRT_STOP_STEP_NULL": (_dup_steer_sym, _dup_steer_conc)}
@@ -94,13 +96,18 @@ def harness(ns, params):
         mc = fresh_int("mnemonic_case", 0, 2)
         first = fresh_bool("sym_first")
         big = fresh_bool("big_index")  # index samples around 1e9: STRT/STOP become the widest ~Well entries
-        inputs = {"section": section, "companion": companion, "shape": list(shape), "m": m, "u": u, "v": v, "d": d, "version12": v12, "mnemonic_case": mc, "sym_first": first, "big_index": big}
+        nn = fresh_bool("no_nan")  # data without NaN: the writer does not need the NULL item, so a duplicated NULL is writable
+        if not params.get("letters_only"):
+            A(z.Not(nn.e))
+        inputs = {"section": section, "companion": companion, "shape": list(shape), "m": m, "u": u, "v": v, "d": d, "version12": v12, "mnemonic_case": mc, "sym_first": first, "big_index": big, "no_nan": nn}
         cx = core.ctx()
         cx.inputs = inputs
         apply_exclusions(inputs)
         version = 1.2 if bool(v12) else 2.0
         mcase = ["preserve", "upper", "lower"][mc.__index__()]
-        las = W.base_las(ns)
+        las = W.base_las(ns, no_nan=bool(nn))
+        if params.get("letters_only"):
+            core.witness("second-NULL-item-written-and-read-back", z.And(SymStr.lift(m).eq_expr("NULL") if shape[0] == 4 else False, nn.e))
         if bool(big):
             list.__getitem__(las.curves, 0).data = np.array([1e9, 1e9 + 1.0])
             core.witness("STRT-is-the-widest-well-entry")
@@ -152,7 +159,7 @@ def replay(i):
     ns = NS()
     ns.las = lasio.las
     ns.items = lasio.las_items
-    las = W.base_las(ns)
+    las = W.base_las(ns, no_nan=bool(i.get("no_nan", False)))
     if i.get("big_index"):
         las.curves[0].data = np.array([1e9, 1e9 + 1.0])
     if section in ("W", "P") and companion == "wide":
